@@ -102,16 +102,29 @@ Qed.
 
 (* ------------------------------------------------------------------ longest: the three kinds of token start *)
 
+(** [lia] after clearing the boolean and list hypotheses (with ZifyBool loaded, [lia] would otherwise
+    preprocess every one of them). *)
+Ltac blia :=
+  repeat match goal with
+         | H : _ = true |- _ => clear H
+         | H : _ = false |- _ => clear H
+         | H : _ -> _ = true |- _ => clear H
+         | H : @eq (list _) _ _ |- _ => clear H
+         | H : @eq str _ _ |- _ => clear H
+         | H : lexeme _ |- _ => clear H
+         | H : produced _ _ _ _ |- _ => clear H
+         end; lia.
+
 Lemma longest_string body rest0 m :
   nosep c_quote body = true -> S (S (length body)) < m -> m <= length (c_quote :: body ++ c_quote :: rest0) ->
   lexeme (firstn m (c_quote :: body ++ c_quote :: rest0)) -> False.
 Proof.
   intros Hb Hm Hle Hlx.
   assert (Hp : exists t, firstn m (c_quote :: body ++ c_quote :: rest0) = c_quote :: body ++ c_quote :: t /\ t <> []).
-  { destruct m as [|m]; [lia|]. cbn [firstn]. replace m with (length body + S (m - length body - 1)) by lia.
+  { destruct m as [|m]; [blia|]. cbn [firstn]. replace m with (length body + S (m - length body - 1)) by blia.
     rewrite firstn_plus, firstn_app_exact, skipn_app_exact. cbn [firstn]. eexists. split; [reflexivity|].
     cbn [length] in Hle. rewrite app_length in Hle. cbn [length] in Hle.
-    destruct rest0 as [|y rest0]; [cbn [length] in Hle; lia|]. replace (m - length body - 1) with (S (m - length body - 2)) by lia.
+    destruct rest0 as [|y rest0]; [cbn [length] in Hle; blia|]. replace (m - length body - 1) with (S (m - length body - 2)) by blia.
     discriminate. }
   destruct Hp as (t & Hp & Ht). rewrite Hp in Hlx. destruct (lexeme_first _ Hlx) as [(i & Z & He & Hi)|[(r & He)|(k & Hk)]].
   - destruct (id_b_first _ Hi) as (c & r & -> & Hc). cbn [app] in He. inversion He; subst c. discriminate.
@@ -124,7 +137,7 @@ Proof.
     destruct (string_b_inv _ Hs) as (body' & He' & Hb'). inversion He' as [He2].
     pose proof (find_char_complete c_quote body t Hb) as F1. rewrite He2 in F1.
     pose proof (find_char_complete c_quote body' [] Hb') as F2. rewrite F2 in F1. inversion F1 as [Hl].
-    apply (f_equal (@length N)) in He2. rewrite !app_length in He2. cbn [length] in He2. destruct t; [congruence|cbn [length] in He2; lia].
+    apply (f_equal (@length N)) in He2. rewrite !app_length in He2. cbn [length] in He2. destruct t; [congruence|cbn [length] in He2; blia].
   - destruct (sym_row_facts d _ _ Hk) as (_ & _ & c0 & r0 & Hc0 & _ & _ & Hq). inversion Hc0; subst c0. discriminate.
 Qed.
 
@@ -137,13 +150,13 @@ Proof.
   - pose proof (id_b_not_nil d _ Hi) as Hne. assert (Hfi : firstn (length i) s = i).
     { rewrite Hs, He, <- app_assoc. apply firstn_app_exact. }
     assert (Hli : length i <= length s).
-    { rewrite Hs, He, !app_length. lia. }
-    rewrite <- Hfi in Hi. pose proof (id_len_max d s (length i) Hli Hi) as H. rewrite Hid in H. destruct i; [congruence|cbn in H; lia].
+    { rewrite Hs, He, !app_length. blia. }
+    rewrite <- Hfi in Hi. pose proof (id_len_max d s (length i) Hli Hi) as H. rewrite Hid in H. destruct i; [congruence|cbn in H; blia].
   - rewrite He in Hs. cbn [app] in Hs. exact (Hq _ Hs).
   - destruct (best_symbol_spec _ _ _ _ Hb) as [_ Hmax]. apply Htab in Hk.
     assert (Hsw : starts_with (firstn m s) s = true) by (eapply firstn_starts_with; reflexivity).
-    assert (Hne : firstn m s <> []) by (destruct m; [lia|destruct s; [cbn in Hle; lia|discriminate]]).
-    specialize (Hmax _ _ Hk Hsw Hne). rewrite firstn_length_le in Hmax; lia.
+    assert (Hne : firstn m s <> []) by (destruct m; [blia|destruct s; [cbn in Hle; blia|discriminate]]).
+    specialize (Hmax _ _ Hk Hsw Hne). rewrite firstn_length_le in Hmax; blia.
 Qed.
 
 (** two decompositions of the same text starting with an id followed by a separator *)
@@ -160,7 +173,7 @@ Lemma chain_head c segs : segs <> [] -> exists r, chain_text c segs = c :: r.
 Proof. destruct segs as [|j segs]; [congruence|]. intros _. rewrite chain_text_cons. eauto. Qed.
 
 Lemma chain_len_pos c segs : segs <> [] -> 0 < length (chain_text c segs).
-Proof. intros H. destruct (chain_head c segs H) as (r & ->). cbn. lia. Qed.
+Proof. intros H. destruct (chain_head c segs H) as (r & ->). cbn. blia. Qed.
 
 (** The chain scanner on [chain ++ Y]: at least the chain; exactly the chain when a foreign separator follows. *)
 Lemma seg_ge c (Hc : is_sep c = true) fuel segs Y :
@@ -185,28 +198,28 @@ Proof.
   destruct (firstn_prefix m s) as (tl & Hsm).
   assert (Hlm : length (firstn m s) = m) by (apply firstn_length_le; exact Hle).
   assert (Hn_ge : length (sh_id x) <= n).
-  { destruct Hprod as [_ _ _ -> _| -> _ _|_ _ _ ->|_ _ _ ->]; rewrite ?app_length; lia. }
+  { destruct Hprod as [_ _ _ -> _| -> _ _|_ _ _ ->|_ _ _ ->]; rewrite ?app_length; blia. }
   rewrite Hs0 in Hn1.
   destruct (id_b_first _ Hi) as (c1 & r1 & Hw1 & Hc1).
   inversion Hlx as [H|i segs ver He Hi' Hne Hids Hver|i segs path ver He Hi' Hne Hids Hpne Hpids Hver|H|k' H].
   - (* a longer id *)
-    pose proof (id_len_max d s m Hle H) as Hmax. rewrite Hs0, Hn1 in Hmax. lia.
+    pose proof (id_len_max d s m Hle H) as Hmax. rewrite Hs0, Hn1 in Hmax. blia.
   - (* a longer package name *)
     destruct (chain_head c_colon segs Hne) as (rC & HrC).
     assert (E1 : i ++ c_colon :: (rC ++ ver ++ tl) = sh_id x ++ after_id x).
     { rewrite <- Hs0, Hsm, He, HrC, <- !app_assoc. reflexivity. }
     destruct (id_prefix_unique _ _ _ _ _ is_sep_colon Hi' E1 Hn1) as [-> E2].
     assert (Haft : after_id x = chain_text c_colon segs ++ ver ++ tl) by (rewrite <- E2, HrC; reflexivity).
-    assert (Hfa : length (after_id x) < fuel) by (rewrite Hs0, app_length in Hf; lia).
+    assert (Hfa : length (after_id x) < fuel) by (rewrite Hs0, app_length in Hf; blia).
     pose proof (seg_ge c_colon is_sep_colon fuel segs (ver ++ tl) Hids ltac:(rewrite <- Haft; exact Hfa)) as Hge.
     rewrite <- Haft, HsC in Hge. pose proof (chain_len_pos c_colon segs Hne) as Hpos.
-    assert (HneC : sh_colon x <> []) by (intros E; rewrite E in Hge; cbn in Hge; lia).
+    assert (HneC : sh_colon x <> []) by (intros E; rewrite E in Hge; cbn in Hge; blia).
     assert (Hhd : head_is c_minus (after_id x) = false) by (rewrite Haft, HrC; reflexivity).
     assert (Hmlen : m = length (sh_id x) + length (chain_text c_colon segs) + length ver).
-    { rewrite <- Hlm, He, !app_length. lia. }
+    { rewrite <- Hlm, He, !app_length. blia. }
     destruct (vtail_cases _ Hver) as [->|(v & -> & Hsv)].
     + (* without version: shorter than the chain the scanner found *)
-      cbn [length] in Hmlen. destruct Hprod as [_ _ _ _ Hh|_ [Hw|Hw] _|_ _ _ ->|_ _ _ ->]; try congruence; rewrite !app_length in Hm; lia.
+      cbn [length] in Hmlen. destruct Hprod as [_ _ _ _ Hh|_ [Hw|Hw] _|_ _ _ ->|_ _ _ ->]; try congruence; rewrite !app_length in Hm; blia.
     + (* with a version: the chains agree, then the versions *)
       assert (HeqC : length (chain_text c_colon (sh_colon x)) = length (chain_text c_colon segs)).
       { rewrite <- HsC, Haft. rewrite Haft in Hfa. cbn [app] in *.
@@ -218,7 +231,7 @@ Proof.
       * unfold after_colon in Hac. rewrite HP in Hac. cbn [chain_text map concat app] in Hac.
         unfold after_slash in Hvl. rewrite Hac in Hvl.
         destruct (version_tail_exact (c_atsign :: v) tl Hver) as [Hge2 _]. cbn [app] in Hge2. rewrite Hvl in Hge2.
-        rewrite !app_length in Hm. cbn [length] in *. lia.
+        rewrite !app_length in Hm. cbn [length] in *. blia.
       * destruct (chain_head c_slash (sh_slash x) HP) as (rP & HrP). unfold after_colon in Hac. rewrite HrP in Hac. discriminate.
   - (* a longer package path *)
     destruct (chain_head c_colon segs Hne) as (rC & HrC). destruct (chain_head c_slash path Hpne) as (rP & HrP).
@@ -226,26 +239,26 @@ Proof.
     { rewrite <- Hs0, Hsm, He, HrC, <- !app_assoc. reflexivity. }
     destruct (id_prefix_unique _ _ _ _ _ is_sep_colon Hi' E1 Hn1) as [-> E2].
     assert (Haft : after_id x = chain_text c_colon segs ++ chain_text c_slash path ++ ver ++ tl) by (rewrite <- E2, HrC; reflexivity).
-    assert (Hfa : length (after_id x) < fuel) by (rewrite Hs0, app_length in Hf; lia).
+    assert (Hfa : length (after_id x) < fuel) by (rewrite Hs0, app_length in Hf; blia).
     assert (HeqC : length (chain_text c_colon (sh_colon x)) = length (chain_text c_colon segs)).
     { rewrite <- HsC, Haft, HrP. rewrite Haft, HrP in Hfa. cbn [app] in *.
       apply (seg_eq_sep c_colon is_sep_colon fuel segs c_slash (rP ++ ver ++ tl) Hids Hfa is_sep_slash). reflexivity. }
     pose proof (chain_len_pos c_colon segs Hne) as Hpos.
-    assert (HneC : sh_colon x <> []) by (intros E; rewrite E in HeqC; cbn in HeqC; lia).
+    assert (HneC : sh_colon x <> []) by (intros E; rewrite E in HeqC; cbn in HeqC; blia).
     assert (Hhd : head_is c_minus (after_id x) = false) by (rewrite Haft, HrC; reflexivity).
     assert (Hac : after_colon x = chain_text c_slash path ++ ver ++ tl).
     { unfold after_id in Haft. apply (f_equal (skipn (length (chain_text c_colon segs)))) in Haft.
       rewrite <- HeqC in Haft at 1. now rewrite !skipn_app_exact in Haft. }
     assert (Hfc : length (after_colon x) < fuel).
-    { unfold after_id in Hfa. rewrite app_length in Hfa. lia. }
+    { unfold after_id in Hfa. rewrite app_length in Hfa. blia. }
     pose proof (seg_ge c_slash is_sep_slash fuel path (ver ++ tl) Hpids ltac:(rewrite <- Hac; exact Hfc)) as Hge.
     rewrite <- Hac, HsP in Hge. pose proof (chain_len_pos c_slash path Hpne) as Hpos2.
-    assert (HneP : sh_slash x <> []) by (intros E; rewrite E in Hge; cbn in Hge; lia).
+    assert (HneP : sh_slash x <> []) by (intros E; rewrite E in Hge; cbn in Hge; blia).
     assert (Hmlen : m = length (sh_id x) + length (chain_text c_colon segs) + length (chain_text c_slash path) + length ver).
-    { rewrite <- Hlm, He, !app_length. lia. }
+    { rewrite <- Hlm, He, !app_length. blia. }
     destruct Hprod as [_ _ _ _ Hh|_ [Hw|Hw] _|_ HP _ ->|_ HP _ ->]; try congruence.
     rewrite !app_length in Hm.
-    destruct (vtail_cases _ Hver) as [->|(v & -> & Hsv)]; [cbn [length] in Hmlen; lia|].
+    destruct (vtail_cases _ Hver) as [->|(v & -> & Hsv)]; [cbn [length] in Hmlen; blia|].
     assert (HeqP : length (chain_text c_slash (sh_slash x)) = length (chain_text c_slash path)).
     { rewrite <- HsP, Hac. rewrite Hac in Hfc. cbn [app] in *.
       apply (seg_eq_sep c_slash is_sep_slash fuel path c_atsign (v ++ tl) Hpids Hfc is_sep_at). reflexivity. }
@@ -253,12 +266,12 @@ Proof.
     { unfold after_colon in Hac. apply (f_equal (skipn (length (chain_text c_slash path)))) in Hac.
       rewrite <- HeqP in Hac at 1. now rewrite !skipn_app_exact in Hac. }
     rewrite Has in Hvl. destruct (version_tail_exact (c_atsign :: v) tl Hver) as [Hge2 _]. cbn [app] in Hge2. rewrite Hvl in Hge2.
-    cbn [length] in *. lia.
+    cbn [length] in *. blia.
   - (* a string *)
-    destruct (string_b_first _ H) as (r & Hr). rewrite Hs0, Hw1 in Hsm. rewrite Hr in Hsm. cbn [app] in Hsm.
+    destruct (string_b_first _ H) as (r & Hr). rewrite Hr in Hsm. rewrite Hs0, Hw1 in Hsm. cbn [app] in Hsm.
     inversion Hsm; subst c1. discriminate.
   - (* punctuation *)
-    destruct (sym_row_facts d _ _ H) as (_ & _ & c0 & r0 & Hc0 & Ha & Hp & _). rewrite Hs0, Hw1, Hc0 in Hsm. cbn [app] in Hsm.
+    destruct (sym_row_facts d _ _ H) as (_ & _ & c0 & r0 & Hc0 & Ha & Hp & _). rewrite Hc0 in Hsm. rewrite Hs0, Hw1 in Hsm. cbn [app] in Hsm.
     inversion Hsm; subst c1. unfold id_start_char in Hc1. now rewrite Ha, Hp in Hc1.
 Qed.
 
